@@ -240,7 +240,7 @@ func (kt *Keytab) Unmarshal(b []byte) error {
 				return fmt.Errorf("%d can't be less than zero", n)
 			}
 			if n+int(l) > len(b) {
-				return fmt.Errorf("%s's length is less than %d", b, n+int(l))
+				return fmt.Errorf("keytab data length (%d) is less than %d", len(b), n+int(l))
 			}
 			eb := b[n : n+int(l)]
 			n = n + int(l)
@@ -452,7 +452,7 @@ func readInt8(b []byte, p *int, e *binary.ByteOrder) (i int8, err error) {
 	}
 
 	if (*p + 1) > len(b) {
-		return 0, fmt.Errorf("%s's length is less than %d", b, *p+1)
+		return 0, fmt.Errorf("keytab entry length (%d) is less than %d", len(b), *p+1)
 	}
 	buf := bytes.NewBuffer(b[*p : *p+1])
 	binary.Read(buf, *e, &i)
@@ -467,7 +467,7 @@ func readInt16(b []byte, p *int, e *binary.ByteOrder) (i int16, err error) {
 	}
 
 	if (*p + 2) > len(b) {
-		return 0, fmt.Errorf("%s's length is less than %d", b, *p+2)
+		return 0, fmt.Errorf("keytab entry length (%d) is less than %d", len(b), *p+2)
 	}
 
 	buf := bytes.NewBuffer(b[*p : *p+2])
@@ -483,7 +483,7 @@ func readInt32(b []byte, p *int, e *binary.ByteOrder) (i int32, err error) {
 	}
 
 	if (*p + 4) > len(b) {
-		return 0, fmt.Errorf("%s's length is less than %d", b, *p+4)
+		return 0, fmt.Errorf("keytab entry length (%d) is less than %d", len(b), *p+4)
 	}
 
 	buf := bytes.NewBuffer(b[*p : *p+4])
@@ -498,7 +498,7 @@ func readBytes(b []byte, p *int, s int, e *binary.ByteOrder) ([]byte, error) {
 	}
 	i := *p + s
 	if i > len(b) {
-		return nil, fmt.Errorf("%s's length is greater than %d", b, i)
+		return nil, fmt.Errorf("keytab entry length (%d) is less than %d", len(b), i)
 	}
 	buf := bytes.NewBuffer(b[*p:i])
 	r := make([]byte, s)
